@@ -95,34 +95,91 @@ def idxs(l) -> str:
 
 
 def impl_observe_graph(case, discs=None) -> dict[str, Any]:
+    """All public views of CouplingStructure / DependencyGraph on the case.
+
+    The queries are issued in an order drawn from the case's `qseed` (the properties are lazily cached:
+    the answers must not depend on what was asked before), then all of them a second time on the same
+    object; a fresh DependencyGraph on the same discipline objects is queried as well."""
+    import random
+
     from gemseo.core.coupling_structure import CouplingStructure
+    from gemseo.core.dependency_graph import DependencyGraph
 
     discs = discs if discs is not None else build_discs(case)
     cs = CouplingStructure(discs)
-    seq = [[tuple(_idx(discs, d) for d in grp) for grp in stage] for stage in cs.sequence]
-    obs: dict[str, Any] = {"seq": seq}
-    obs["strong"] = list(cs.strong_couplings)
-    obs["weak"] = list(cs.weak_couplings)
-    obs["all"] = list(cs.all_couplings)
-    obs["scd"] = [_idx(discs, d) for d in cs.strongly_coupled_disciplines]
-    obs["wcd"] = [_idx(discs, d) for d in cs.weakly_coupled_disciplines]
-    obs["scd_noself"] = [_idx(discs, d) for d in cs.get_strongly_coupled_disciplines(add_self_coupled=False)]
-    obs["scd_groups"] = [tuple(_idx(discs, d) for d in g) for g in cs.get_strongly_coupled_disciplines(by_group=True)]
-    obs["selfc"] = [i for i, d in enumerate(discs) if cs.is_self_coupled(d)]
-    obs["incoup"] = [list(cs.get_input_couplings(d, strong=True)) for d in discs]
-    obs["outcoup"] = [list(cs.get_output_couplings(d, strong=True)) for d in discs]
-    obs["incoup_all"] = [list(cs.get_input_couplings(d, strong=False)) for d in discs]
-    obs["outcoup_all"] = [list(cs.get_output_couplings(d, strong=False)) for d in discs]
-    obs["edges"] = sorted((_idx(discs, a), _idx(discs, b), list(v)) for a, b, v in cs.graph.get_disciplines_couplings())
+    ix = lambda d: _idx(discs, d)  # noqa: E731
+    all_out = sorted({v for d in case["discs"] for v in d["out"]})
+
+    def q_find():
+        out = []
+        for v in all_out:
+            out.append(ix(cs.find_discipline(v)))
+        try:
+            cs.find_discipline("no_such_output_name")
+            out.append(-1)
+        except ValueError:
+            pass
+        return out
+
+    queries = {
+        "seq": lambda: [[tuple(ix(d) for d in grp) for grp in stage] for stage in cs.sequence],
+        "seq_again": lambda: [[tuple(ix(d) for d in grp) for grp in stage] for stage in cs.graph.get_execution_sequence()],
+        "seq_fresh": lambda: [[tuple(ix(d) for d in grp) for grp in stage] for stage in DependencyGraph(discs).get_execution_sequence()],
+        "nodes": lambda: [ix(d) for d in cs.graph.disciplines],
+        "strong": lambda: list(cs.strong_couplings),
+        "weak": lambda: list(cs.weak_couplings),
+        "all": lambda: list(cs.all_couplings),
+        "scd": lambda: [ix(d) for d in cs.strongly_coupled_disciplines],
+        "scd_call": lambda: [ix(d) for d in cs.get_strongly_coupled_disciplines()],
+        "wcd": lambda: [ix(d) for d in cs.weakly_coupled_disciplines],
+        "scd_noself": lambda: [ix(d) for d in cs.get_strongly_coupled_disciplines(add_self_coupled=False)],
+        "scd_groups": lambda: [tuple(ix(d) for d in g) for g in cs.get_strongly_coupled_disciplines(by_group=True)],
+        "scd_groups_noself": lambda: [
+            tuple(ix(d) for d in g) for g in cs.get_strongly_coupled_disciplines(add_self_coupled=False, by_group=True)
+        ],
+        "selfc": lambda: [i for i, d in enumerate(discs) if cs.is_self_coupled(d)],
+        "incoup": lambda: [list(cs.get_input_couplings(d)) for d in discs],
+        "outcoup": lambda: [list(cs.get_output_couplings(d)) for d in discs],
+        "incoup_all": lambda: [list(cs.get_input_couplings(d, strong=False)) for d in discs],
+        "outcoup_all": lambda: [list(cs.get_output_couplings(d, strong=False)) for d in discs],
+        "edges": lambda: sorted((ix(a), ix(b), list(v)) for a, b, v in cs.graph.get_disciplines_couplings()),
+        "edges_fresh": lambda: sorted((ix(a), ix(b), list(v)) for a, b, v in DependencyGraph(discs).get_disciplines_couplings()),
+        "find": q_find,
+    }
+    rnd = random.Random(case.get("qseed", 0))
+    order = sorted(queries)
+    rnd.shuffle(order)
+    obs: dict[str, Any] = {}
+    for k in order:
+        obs[k] = queries[k]()
+    order2 = sorted(queries)
+    rnd.shuffle(order2)
+    unstable = []
+    for k in order2:
+        again = queries[k]()
+        if k.startswith("seq"):
+            if canon_seq(again) != canon_seq(obs[k]):
+                unstable.append(k)
+        elif again != obs[k]:
+            unstable.append(k)
+    # the different routes to the same information must agree (compared as the model prints them)
+    for k, ref in (("seq_again", "seq"), ("seq_fresh", "seq"), ("edges_fresh", "edges"), ("scd_call", "scd")):
+        same = canon_seq(obs[k]) == canon_seq(obs[ref]) if k.startswith("seq") else obs[k] == obs[ref]
+        if not same:
+            unstable.append(f"{k}!={ref}")
+    if obs["nodes"] != list(range(len(discs))):
+        unstable.append("nodes")
+    obs["unstable"] = sorted(unstable)
+    seq = obs["seq"]
+    sg = lambda gs: ";".join(",".join(map(str, g)) for g in sorted(gs, key=lambda g: (min(g), g))) or "[]"  # noqa: E731
     edges_s = ";".join(f"{a}>{b}:{','.join(v)}" for a, b, v in obs["edges"]) or "[]"
-    grp_s = ";".join(",".join(map(str, g)) for g in sorted(obs["scd_groups"], key=lambda g: (min(g), g))) or "[]"
     obs["line"] = (
         f"seq={canon_seq(seq)} strong={names(obs['strong'])} weak={names(obs['weak'])} all={names(obs['all'])} "
         f"scd={idxs(sorted(obs['scd']))} wcd={idxs(sorted(obs['wcd']))} scd0={idxs(sorted(obs['scd_noself']))} "
-        f"grp={grp_s} self={idxs(obs['selfc'])} "
+        f"grp={sg(obs['scd_groups'])} grp0={sg(obs['scd_groups_noself'])} self={idxs(obs['selfc'])} "
         f"ic={'/'.join(names(x) for x in obs['incoup']) or '[]'} oc={'/'.join(names(x) for x in obs['outcoup']) or '[]'} "
         f"ica={'/'.join(names(x) for x in obs['incoup_all']) or '[]'} oca={'/'.join(names(x) for x in obs['outcoup_all']) or '[]'} "
-        f"edges={edges_s}"
+        f"edges={edges_s} find={idxs(obs['find'])} unstable={names(obs['unstable'])}"
     )
     return obs
 
@@ -234,6 +291,13 @@ def oracle_graph(case, obs) -> list[tuple[str, str]]:
     for key, got, want in (("strong", obs["strong"], strong), ("weak", obs["weak"], weak), ("all", obs["all"], allc)):
         if list(got) != sorted(want):
             bad.append((f"{key}-couplings", f"{key}_couplings = {list(got)}, the graph implies {sorted(want)}"))
+    if obs["unstable"]:
+        bad.append(("query-order-dependent", f"the answers of {obs['unstable']} changed when asked again / differ between equivalent accessors"))
+    all_out = sorted({v for d in discs for v in d["out"]})
+    if len(obs["find"]) != len(all_out) or any(v not in discs[i]["out"] for v, i in zip(all_out, obs["find"]) if 0 <= i < n) or any(
+        not (0 <= i < n) for i in obs["find"]
+    ):
+        bad.append(("find-discipline", f"find_discipline over {all_out} returned {obs['find']} (must produce the output; unknown output must raise)"))
     if sorted(obs["scd"]) != [i for i in range(n) if on_cycle[i]] or len(set(obs["scd"])) != len(obs["scd"]):
         bad.append(("strongly-coupled-disciplines", f"strongly_coupled_disciplines = {obs['scd']}, on a cycle: {[i for i in range(n) if on_cycle[i]]}"))
     if sorted(obs["wcd"]) != [i for i in range(n) if not on_cycle[i]] or len(set(obs["wcd"])) != len(obs["wcd"]):
@@ -282,7 +346,14 @@ def build_lin_discs(case):
 
 
 def impl_observe_chain(case) -> dict[str, Any]:
-    """Build and execute the chain of the case with the real code; exact rational view of the result."""
+    """Build and execute the chain of the case with the real code; exact rational view of the result.
+
+    `case["variant"]` (list of flags) selects alternative public entry points / histories that must not
+    change the result: "cs" (a pre-built CouplingStructure is passed to the MDAChain), "twice" (a first
+    process is built on the same discipline objects and executed before the observed one is built),
+    "alias" (all executions use ONE input dict whose arrays are updated in place between executions),
+    "subcs" (the coupling structures of the inner MDAs are passed), "deepcopy" (MDOParallelChain with use_deep_copy), "graphfirst" (the disciplines were analysed by a
+    CouplingStructure before)."""
     import numpy as np
     from gemseo.core.chains.chain import MDOChain
     from gemseo.core.coupling_structure import CouplingStructure
@@ -290,28 +361,66 @@ def impl_observe_chain(case) -> dict[str, Any]:
 
     ds = build_lin_discs(case)
     mode = case["mode"]
+    variant = case.get("variant") or []
     obs: dict[str, Any] = {}
-    try:
+
+    def build():
         if mode == "mdo":
-            ch = MDOChain(ds)
-        elif mode == "seqchain":
+            return MDOChain(ds)
+        if mode == "seqchain":
             cs = CouplingStructure(ds)
-            ch = MDOChain([d for st in cs.sequence for g in st for d in g])
-        else:
-            kw: dict[str, Any] = {"tolerance": 1e-14, "max_mda_iter": 200}
-            if mode == "mdapar":
-                kw["mdachain_parallelize_tasks"] = True
-            if mode == "mdags":
-                kw["inner_mda_name"] = "MDAGaussSeidel"
-            if mode == "mdainit":
-                kw["initialize_defaults"] = True
-            ch = MDAChain(ds, **kw)
+            return MDOChain([d for st in cs.sequence for g in st for d in g])
+        kw: dict[str, Any] = {"tolerance": 1e-14, "max_mda_iter": 200}
+        if mode == "mdapar":
+            kw["mdachain_parallelize_tasks"] = True
+            if "deepcopy" in variant:
+                kw["mdachain_parallel_settings"] = {"use_deep_copy": True}
+        if mode == "mdags":
+            kw["inner_mda_name"] = "MDAGaussSeidel"
+        if mode == "mdainit":
+            kw["initialize_defaults"] = True
+        if "cs" in variant:
+            kw["coupling_structure"] = CouplingStructure(ds)
+        if "subcs" in variant:
+            # the coupling structures of the inner MDAs, in the order the MDAChain creates them
+            cs0 = CouplingStructure(ds)
+            subs = []
+            for stage in cs0.sequence:
+                for grp in stage:
+                    if len(grp) > 1 or cs0.is_self_coupled(grp[0]):
+                        subs.append(CouplingStructure([d for d in ds if any(d is g for g in grp)]))
+            kw["sub_coupling_structures"] = subs
+        return MDAChain(ds, **kw)
+
+    def to_inp(ext, ch):
+        return {k: np.array([float(Fraction(v))]) for k, v in ext.items() if k in ch.io.input_grammar}
+
+    try:
+        if "graphfirst" in variant:
+            CouplingStructure(ds).strong_couplings  # noqa: B018
+        if "twice" in variant:
+            first = build()
+            first.execute(to_inp((case.get("pre") or [case["ext"]])[0], first))
+        ch = build()
         ins = sorted(ch.io.input_grammar)
         outs = sorted(n for n in ch.io.output_grammar if n != RESIDUAL_NAME)
+        shared = None
         for pre in case.get("pre") or []:
             # history: earlier executions of the same process object (other values, or the very same ones)
-            ch.execute({k: np.array([float(Fraction(v))]) for k, v in pre.items() if k in ch.io.input_grammar})
-        inp = {k: np.array([float(Fraction(v))]) for k, v in case["ext"].items() if k in ch.io.input_grammar}
+            if "alias" in variant and mode != "mdapar":
+                if shared is None:
+                    shared = to_inp(pre, ch)
+                else:
+                    for k, v in to_inp(pre, ch).items():
+                        shared[k][...] = v
+                ch.execute(shared)
+            else:
+                ch.execute(to_inp(pre, ch))
+        inp = to_inp(case["ext"], ch)
+        if shared is not None and set(shared) == set(inp):
+            for k, v in inp.items():
+                shared[k][...] = v
+            inp = shared
         data = ch.execute(inp)
         vals = {}
         for k in sorted(set(ins) | set(outs)):
@@ -319,7 +428,11 @@ def impl_observe_chain(case) -> dict[str, Any]:
                 v = np.atleast_1d(data[k])
                 vals[k] = F(float(v[0])) if np.isfinite(v[0]) else None
         obs.update({"in": ins, "out": outs, "val": vals, "n_runs": [d.n_runs for d in ds]})
-        obs["line"] = f"in={names(ins)} out={names(outs)} val=" + (
+        mdas = "-"
+        if mode not in ("mdo", "seqchain"):
+            groups = [tuple(_idx(ds, d) for d in mda.disciplines) for mda in ch.inner_mdas]
+            mdas = ";".join(",".join(map(str, g)) for g in sorted(groups, key=lambda g: (min(g), g))) or "[]"
+        obs["line"] = f"in={names(ins)} out={names(outs)} mdas={mdas} val=" + (
             ",".join(f"{k}={'nan' if v is None else rat(v)}" for k, v in vals.items()) or "[]"
         )
     except Exception as e:  # noqa: BLE001
@@ -330,14 +443,44 @@ def impl_observe_chain(case) -> dict[str, Any]:
 
 
 def order_impl(case) -> str:
+    """`order_disciplines_from_default_inputs` through both of its public forms."""
     from gemseo.core.chains.initialization_chain import order_disciplines_from_default_inputs
 
     ds = build_lin_discs(case)
+    avail = list(case["ext"])
     try:
-        order = order_disciplines_from_default_inputs(ds, available_data_names=list(case["ext"]))
+        order = order_disciplines_from_default_inputs(ds, available_data_names=avail)
+        got = "order=" + idxs([_idx(ds, d) for d in order])
     except ValueError:
-        return "E:value"
-    return "order=" + idxs([_idx(ds, d) for d in order])
+        got = "E:value"
+    # the non-raising form: the same order, or the names that cannot be computed
+    soft = order_disciplines_from_default_inputs(ds, raise_error=False, available_data_names=tuple(avail))
+    if got != "E:value":
+        same = len(soft) == len(ds) and all(a is b for a, b in zip(soft, order))
+        return got if same else got + " soft-differs"
+    missing = missing_when_stuck(case)
+    ok = all(isinstance(x, str) for x in soft) and set(missing["must"]) <= set(soft) <= set(missing["may"]) and list(soft) == sorted(soft)
+    return got if ok else got + f" soft-missing={list(soft)}"
+
+
+def missing_when_stuck(case) -> dict[str, set[str]]:
+    """When no initialization order exists: the inputs that really cannot be computed (no default, not
+    given, not produced by an initializable discipline) and the inputs of the stuck disciplines."""
+    discs = case["discs"]
+    nodef = case.get("nodefault") or [[] for _ in discs]
+    avail = set(case["ext"])
+    rem = list(range(len(discs)))
+    progress = True
+    while progress:
+        progress = False
+        for i in list(rem):
+            if all(v in avail or v not in nodef[i] for v in discs[i]["in"]):
+                rem.remove(i)
+                avail |= set(discs[i]["out"])
+                progress = True
+    must = {v for i in rem for v in discs[i]["in"] if v in nodef[i] and v not in avail}
+    may = {v for i in rem for v in discs[i]["in"]}
+    return {"must": must, "may": may}
 
 
 def solve_exact(A: list[list[Fraction]], b: list[Fraction]) -> list[Fraction] | None:
@@ -460,6 +603,8 @@ def oracle_order(case, got: str) -> list[tuple[str, str]]:
     discs = case["discs"]
     nodef = case.get("nodefault") or [[] for _ in discs]
     feas = init_feasible(case)
+    if " soft-" in got:
+        return [("init-order-soft-form", f"order_disciplines_from_default_inputs(raise_error=False) is inconsistent with the raising form: {got}")]
     if got == "E:value":
         return [("init-order-raises", "an initialization order exists but order_disciplines_from_default_inputs raised")] if feas else []
     if not feas:
@@ -479,13 +624,13 @@ def same_chain_line(impl: str, model: str, exact: bool) -> bool:
     if impl == model:
         return True
     a, b = impl.split(" "), model.split(" ")
-    if len(a) != 3 or len(b) != 3 or a[:2] != b[:2]:
+    if len(a) != 4 or len(b) != 4 or a[:3] != b[:3]:
         return False
     if exact:
         return False
     try:
-        va = dict(t.split("=") for t in a[2][4:].split(",")) if a[2] != "val=[]" else {}
-        vb = dict(t.split("=") for t in b[2][4:].split(",")) if b[2] != "val=[]" else {}
+        va = dict(t.split("=") for t in a[3][4:].split(",")) if a[3] != "val=[]" else {}
+        vb = dict(t.split("=") for t in b[3][4:].split(",")) if b[3] != "val=[]" else {}
         if set(va) != set(vb):
             return False
         for k in va:
@@ -619,7 +764,8 @@ def gen_system(rng: common.Rng, max_n: int = 6) -> dict[str, Any]:
     if rng.chance(0.4):
         for _ in range(rng.pick([1, 1, 2])):
             pre.append(dict(ext) if rng.chance(0.3) else {x: rat(Fraction(rng.randint(-4, 4), 2)) for x in ext})
-    return {"discs": discs, "lin": lin, "ext": ext, "pre": pre, "mode": "mda"}
+    variant = [f for f in ("cs", "subcs", "twice", "alias", "deepcopy", "graphfirst") if rng.chance(0.2)]
+    return {"discs": discs, "lin": lin, "ext": ext, "pre": pre, "variant": variant, "mode": "mda"}
 
 
 def with_nodefault(rng: common.Rng, case) -> dict[str, Any]:
@@ -892,6 +1038,8 @@ def check_chain_cases(res: Result, cases, procs: int = 1) -> None:
         res.count(f"chain:n={n}")
         res.count("chain:" + ("in-scope" if scope else "probe") + (":cyclic" if cyc else ":acyclic"))
         res.count(f"chain:earlier-executions={len(case.get('pre') or [])}")
+        for f in case.get("variant") or []:
+            res.count(f"chain:variant={f}")
         if n >= 2:
             res.nontrivial(line + "#" + mode)
         res.sample({"protocol_line": line, "mode": mode, "impl": il, "model": m}, cap=8)
@@ -1006,6 +1154,8 @@ def run(ctx) -> Result:
             ex.append(labelled_graph(4, code))
         for _ in range(8000):
             ex.append(labelled_graph(4, rng.randrange(2**16), rng.pick(["asc", "desc"]), rng.randrange(16), rng.randrange(16)))
+    for c in ex:
+        c["qseed"] = rng.randrange(1 << 30)
     check_graph_cases(res, ex, procs, "exhaustive")
     res.exhaustive = True
     res.extra["exhaustive_scope"] = "all labelled digraphs with self-loops on <= %d disciplines" % (4 if ctx.thorough else 3)
@@ -1016,7 +1166,9 @@ def run(ctx) -> Result:
     for _ in range(n_rand):
         g = gen_graph(rng, 12 if ctx.thorough else 9)
         for perm in sample_perms(rng, len(g["discs"]), 3):
-            cases.append(permuted(g, perm))
+            c = permuted(g, perm)
+            c["qseed"] = rng.randrange(1 << 30)
+            cases.append(c)
     check_graph_cases(res, cases, procs, "random")
 
     # chains
